@@ -1,4 +1,5 @@
 import PeptVerif.Lemmas.Effects
+import PeptVerif.Lemmas.EffectsNested
 import PeptVerif.Model.EffectsApi
 import PeptVerif.Generated.Effects
 /-!
@@ -146,6 +147,65 @@ theorem later_query_same_result {β : Type} (S : List Summary) (h : List Call) (
 example : PureCall [] ⟨[.param 0 0, .shallow 1 [0], .write 1], [2, 1, 0, 2, 2]⟩ :=
   ⟨analyse [] [.param 0 0, .shallow 1 [0], .write 1] 2, by decide, by decide, by decide⟩
 
+/-! ## from closed summaries to nested calls -/
+
+theorem closedAll_of_range {S : List Summary} {fns : List FnInfo}
+    (h : (List.range fns.length).all (fun f => closedAt S fns f) = true) :
+    ∀ f i, fns[f]? = some i → closedAt S fns f = true := by
+  intro f i hf
+  rw [List.all_eq_true] at h
+  apply h f
+  rw [List.mem_range]
+  by_cases hlt : f < fns.length
+  · exact hlt
+  · rw [List.getElem?_eq_none (Nat.le_of_not_lt hlt)] at hf
+    cases hf
+
+/-- **Nested calls.** In `execTrace` a call is executed by the callee's summary. `execN` really runs the callee's body (any
+nested trace, fresh frame) and applies what that run did. If the summary table is closed under every body (`closedAt`, the
+content of `summaries_closed`), nested execution of any body, from any state below its table, stays below the table and
+writes only objects of the write set computed with summaries — so every statement proved about `writeSet` / `mayWriteIn`
+holds for real nested calls. -/
+theorem nested_calls_bounded (S : List Summary) (fns : List FnInfo)
+    (hclosed : (List.range fns.length).all (fun f => closedAt S fns f) = true)
+    (tr : NTrace) (p : List Stmt) (A : Pts) (hA : closedB S p A = true) (σ : NState) (hσ : Le σ.pts A) :
+    Le (execN fns p tr σ).pts A ∧ ∀ o, o ∈ (execN fns p tr σ).log → o ∈ σ.log ∨ o ∈ writeSet S p A :=
+  nested_bounded S fns (closedAll_of_range hclosed) tr p A hA σ hσ
+
+/-- a program whose table shows no parameter and no global in the write set writes, under nested execution from a fresh
+frame, nothing the caller can see -/
+theorem nested_pure_call_writes_nothing (S : List Summary) (fns : List FnInfo)
+    (hclosed : (List.range fns.length).all (fun f => closedAt S fns f) = true)
+    (p : List Stmt) (A : Pts) (hA : closedB S p A = true)
+    (hw : mayWriteIn S p A = []) (hg : mayWriteGlobalIn S p A = []) (tr : NTrace) :
+    ∀ o, o ∈ (execN fns p tr ⟨[], []⟩).log → isCaller o = false := by
+  intro o ho
+  have hmem : o ∈ writeSet S p A := by
+    rcases (nested_calls_bounded S fns hclosed tr p A hA ⟨[], []⟩ (nil_le A)).2 o ho with h | h
+    · cases h
+    · exact h
+  have h1 := dedup_eq_nil hw
+  have h2 := dedup_eq_nil hg
+  rw [List.filterMap_eq_nil_iff] at h1 h2
+  have p1 := h1 o hmem
+  have p2 := h2 o hmem
+  cases o with
+  | root i => simp [paramOf] at p1
+  | inner i => simp [paramOf] at p1
+  | glob g => simp [globOf] at p2
+  | loc s => rfl
+
+/-- non-vacuity: a callee that pops from its parameter, called on a shallow copy of the caller's parameter and on the
+parameter itself; the nested run of the second caller does write the caller's object -/
+example :
+    let callee : FnInfo := { prog := [.param 0 0, .write 0], nparams := 1, ret := 1, fuel := 1,
+                             table := [{ top := [.root 0], kids := [.inner 0], deep := [.inner 0] }] }
+    let S : List Summary := [{ writes := [(0, false)] }]
+    closedAt S [callee] 0 = true ∧
+    (execN [callee] [.param 0 0, .shallow 1 [0], .call 2 0 [some 1]] (.step 0 .done (.step 1 .done (.step 2 (.step 0 .done (.step 1 .done .done)) .done))) ⟨[], []⟩).log = [.loc 1] ∧
+    (execN [callee] [.param 0 0, .call 2 0 [some 0]] (.step 0 .done (.step 1 (.step 0 .done (.step 1 .done .done)) .done)) ⟨[], []⟩).log = [.root 0] := by
+  decide
+
 /-! ## obligations over the regenerated module -/
 
 def fnOK (f : Nat) (k : FnInfo → Bool) : Bool :=
@@ -197,6 +257,12 @@ theorem getters_pure :
 theorem api_covered :
     Gen.apiSurface.all (fun s => Gen.analysed.contains s.1 || declaredOutsideCodes.contains s.1) = true := by
   decide +kernel
+
+/-- nested execution of the regenerated bodies is bounded by their tables (instance of `nested_calls_bounded`) -/
+theorem generated_nested_calls_bounded (tr : NTrace) (p : List Stmt) (A : Pts) (hA : closedB Gen.summaries p A = true)
+    (σ : NState) (hσ : Le σ.pts A) :
+    Le (execN Gen.fns p tr σ).pts A ∧ ∀ o, o ∈ (execN Gen.fns p tr σ).log → o ∈ σ.log ∨ o ∈ writeSet Gen.summaries p A :=
+  nested_calls_bounded Gen.summaries Gen.fns summaries_closed tr p A hA σ hσ
 
 /-- the regenerated pure API members are `PureCall`s for every trace, so the history theorems apply to them -/
 theorem generated_query_is_pure_call (e : Gen.ApiEntry) (i : FnInfo)
